@@ -173,6 +173,7 @@ class Evaluator:
         self.memo = {}
         self.stack = []
         self.touched = []   # cells evaluated, in order (for laziness/closure oracles)
+        self.maxabs = 0.0   # largest magnitude among the numeric cells and literals read (scale of summation round-off)
 
     # ---- choice flags ---------------------------------------------------------------------------
     def choose(self, flag):
@@ -188,7 +189,7 @@ class Evaluator:
             v = self.env.overrides[key]
             if v is None:
                 return BLANK
-            return self._const(v)
+            return self._seen(self._const(v))
         if key in self.memo:
             return self.memo[key]
         raw = self.env.cells[sheet].get((r, c))
@@ -204,8 +205,13 @@ class Evaluator:
             finally:
                 self.stack.pop()
         else:
-            v = self._const(raw)
+            v = self._seen(self._const(raw))
         self.memo[key] = v
+        return v
+
+    def _seen(self, v):
+        if is_num(v) and not isinstance(v, bool) and v == v and abs(v) != float('inf'):
+            self.maxabs = max(self.maxabs, abs(v))
         return v
 
     @staticmethod
@@ -246,7 +252,7 @@ class Evaluator:
     def ev(self, n, sheet, at=None):
         k = n[0]
         if k == 'num':
-            return n[1]
+            return self._seen(n[1])
         if k == 'str':
             return n[1]
         if k == 'bool':
@@ -848,10 +854,11 @@ def _address(ev, a, sh, at):
 
 
 # ---- C12 -----------------------------------------------------------------------------------------
+_ISODATE = re.compile(r'^\s*(\d{4})-(\d{1,2})-(\d{1,2})\s*$')
 def crit_matcher(ev, crit):
     """crit: evaluated criterion scalar -> predicate(cell value) (may consult choice flags)"""
-    if isinstance(crit, bool) or isinstance(crit, dt.datetime):
-        raise NoOpinion('boolean/date criterion')
+    if isinstance(crit, bool):
+        raise NoOpinion('boolean criterion')
     if crit is BLANK:
         raise NoOpinion('blank criterion')
     op, rhs = '=', crit
@@ -859,13 +866,31 @@ def crit_matcher(ev, crit):
         m = _CRIT.match(crit)
         op = m.group(1) or '='
         rest = m.group(2)
-        if _NUMTXT.match(rest):
+        iso = _ISODATE.match(rest)
+        if iso:
+            try:
+                rhs = dt.datetime(int(iso.group(1)), int(iso.group(2)), int(iso.group(3)))
+            except ValueError:
+                raise NoOpinion('date-shaped criterion text that is no date')
+        elif _NUMTXT.match(rest):
             t = rest.strip()
             rhs = float(t) if ('.' in t or 'e' in t.lower()) else int(t)
         else:
             rhs = rest
         if isinstance(rhs, str) and rhs == '':
             raise NoOpinion('empty criterion body')
+    if isinstance(rhs, dt.datetime):
+        # a date as the plain value (a date cell handed over) or written year-month-day after the operator: date-time cells are
+        # compared as the moments they are (a time part counts), a cell of another kind never meets it (and always meets <>)
+        def d(x):
+            if isinstance(x, dt.datetime):
+                return {'=': x == rhs, '<>': x != rhs, '>': x > rhs, '<': x < rhs, '>=': x >= rhs, '<=': x <= rhs}[op]
+            if is_num(x) and not isinstance(x, bool):
+                raise NoOpinion('numeric cell against a date criterion (serial numbers)')
+            if isinstance(x, str) and any(ch.isdigit() for ch in x):
+                raise NoOpinion('text with digits against a date criterion')
+            return op == '<>'
+        return d
     if is_num(rhs):
         def p(x):
             if x is BLANK:
@@ -1007,9 +1032,14 @@ def _sumif(ev, a, sh, at):
             raise NoOpinion('SUMIF target')
         # the target range takes its geometry from the criteria range, anchored at the target's first cell
         tsheet = t[1] if t[1] not in (None, '') else sh
-        if t[2] is None:
-            raise NoOpinion('whole-column SUMIF target')
-        node = ('ref', tsheet, t[2], t[3], t[2] + rng.h - 1, t[3] + rng.w - 1, True)
+        if t[2] is None and rng.whole_col:
+            if rng.w != t[5] - t[3] + 1:
+                raise NoOpinion('whole-column SUMIF target of another width')
+            node = t
+        else:
+            # a whole-column target next to a bounded criteria area is anchored at the top of that column
+            top = 1 if t[2] is None else t[2]
+            node = ('ref', tsheet, top, t[3], top + rng.h - 1, t[3] + rng.w - 1, True)
         target = ev.area(node, sh)
     else:
         target = rng
@@ -1029,7 +1059,13 @@ def evaluate_once(env, sheet, addr, choices=None, **kw):
             raise NoOpinion('area result')
     except XlError as e:
         v = Err(e.kind)
+    LAST['scale'] = ev.maxabs
     return v, ev
+
+
+# magnitude of the largest number the last evaluation read: sums of such numbers differ by round-off of that scale when the
+# order of summation differs, however small the (cancelled) result is
+LAST = {'scale': 0.0}
 
 
 def outcomes(env, sheet, addr, max_flags=5, **kw):
@@ -1049,6 +1085,8 @@ def outcomes(env, sheet, addr, max_flags=5, **kw):
                 raise NoOpinion('flag set depends on choices')
             if not any(_same_ref(v2, o) for o in outs):
                 outs.append(v2)
+            ev.maxabs = max(ev.maxabs, ev2.maxabs)
+    LAST['scale'] = ev.maxabs
     return outs, flags
 
 
